@@ -247,15 +247,21 @@ def harness_cases(tier, sd):
         cases.append(c)
 
     # (a) atom kinds x value classes: every edit of a referenced value must re-execute
-    kinds = ["", "const", "default", "closure", "helper", "nested"]
+    kinds = ["", "const", "default", "closure", "helper", "nested", "module", "modfn", "flag"]
     classes = ["", "int16", "int32", "str", "tuple", "dict", "float"]
     for k in kinds:
         for v in classes:
-            if quick and (kinds.index(k) + classes.index(v)) % 3 != sd % 3 and not (k == "" or v == "int16"):
+            if quick and k != "flag" and (kinds.index(k) + classes.index(v)) % 3 != sd % 3 and not (k == "" or v == "int16"):
                 continue
             shape = json.loads(json.dumps(SHAPES["chain"]))
-            for t in shape["targets"].values():
-                t["kind"] = k
+            if k == "flag":
+                # the value comes from the command line; one flag per project (see DESIGN.md section 6)
+                if v:
+                    continue
+                shape["targets"]["T1"]["kind"] = k
+            else:
+                for t in shape["targets"].values():
+                    t["kind"] = k
             steps = [B("T2")]
             for _ in range(4):
                 steps += [{"op": "edit_env", "t": "T1"}, B("T2")]
